@@ -1,0 +1,16 @@
+//go:build verif
+
+package summaries
+
+// VerifStdSummaries returns the table of predefined standard-library summaries exactly as it is consulted by
+// SummaryOfFunc: package path -> function string (ssa.Function.String()) -> summary. Read-only view for the
+// verification harness (signature conformance of every table entry, including entries whose key resolves to no
+// function of the loaded program).
+func VerifStdSummaries() map[string]map[string]Summary {
+	return stdPackages
+}
+
+// VerifRequiredSummaries returns the set of functions whose body is always analysed (see IsSummaryRequired).
+func VerifRequiredSummaries() map[string]bool {
+	return requiredSummaries
+}
